@@ -365,7 +365,7 @@ def kernel_cases(ctx: Ctx):
         yield {"line": line("gauss", [need], [int(b) for b in base], cands), "impl": _guard(impl), "nontrivial": need > 0,
                "bucket": "kernel/gaussian_mask_1d"}
     # ---- bisection wrapper with a scripted rasteriser
-    for _ in range(ctx.budget(24, 200)):
+    for _ in range(ctx.budget(24, 400)):
         kind = rng.random()
         if kind < 0.7:
             script = [rng.choice([1, 2]) for _ in range(rng.randint(0, 30))] + [0]
@@ -396,8 +396,8 @@ def kernel_cases(ctx: Ctx):
 
 def correspondence(ctx: Ctx):
     yield from kernel_cases(ctx)
-    yield from generator_cases(ctx, ctx.budget(9, 60), acs=False)
-    yield from malformed_cases(ctx, ctx.budget(40, 300))
+    yield from generator_cases(ctx, ctx.budget(9, 240), acs=False)
+    yield from malformed_cases(ctx, ctx.budget(40, 800))
 
 
 # --------------------------------------------------------------------------------------------------
@@ -449,7 +449,7 @@ def check_geometry(spec: dict, res: dict):
 def oracle(ctx: Ctx, deep: bool = False):
     """The property stated directly on the implementation (independent of the model)."""
     rng = ctx.rng
-    per_gen = ctx.budget(12, 80) * (3 if deep else 1)
+    per_gen = ctx.budget(12, 300) * (3 if deep else 1)
     seen = set()
     for name in G.GENERATORS:
         modes = G.modes_of(name)
